@@ -84,7 +84,8 @@ def _ix(r, bools, ints, w, depth):
 def gen_g(r, name):
     """(src, params [(name, type)], args [(name, type)], ret, template, defs)"""
     t = wchoice(r, [("mix", 5), ("loop_sum", 1), ("bool_list", 1.2), ("lookup", 1), ("tuple", 1), ("const_index", 0.5), ("range", 0.4), ("with_def", 1.5), ("ifstmt", 1), ("list_tuples", 0.5),
-                    ("builtins", 1.5), ("two_lists", 0.8), ("inner_def", 1.2), ("minmax", 0.6)])
+                    ("builtins", 1.5), ("two_lists", 0.8), ("inner_def", 1.2), ("minmax", 0.6),
+                    ("unpack", 0.8), ("enum_loop", 0.8), ("forward", 0.8), ("double_index", 0.6), ("augassign", 0.6)])
     defs = []
     if t == "mix":
         # 1-4 parameters interleaved anywhere in the signature with 1-3 real arguments
@@ -156,6 +157,30 @@ def gen_g(r, name):
         use = "k" if pt == "bool" else f"(k == {r.randrange(4)})"
         src = (f"def {name}(a: bool, k: Parameter[{pt}], b: bool) -> bool:\n    def {fn}(x: bool, y: bool) -> bool:\n        return (not x) ^ y\n"
                f"    return {fn}(a, b) ^ {use}\n")
+    elif t == "unpack":
+        params, args, ret = [("p", "Tuple[bool, bool]")], [("a", "bool")], "bool"
+        src = f"def {name}(p: Parameter[Tuple[bool, bool]], a: bool) -> bool:\n    x, y = p\n    return (x and a) ^ y\n"
+    elif t == "enum_loop":
+        n = r.randint(2, 4)
+        params, args, ret = [("p", f"Qlist[bool, {n}]")], [("a", "bool"), ("b", "bool")], "bool"
+        src = (f"def {name}(a: bool, p: Parameter[Qlist[bool, {n}]], b: bool) -> bool:\n    r = b\n    for i in range(len(p)):\n"
+               f"        r = r ^ (p[i] and a)\n    return r\n")
+    elif t == "forward":
+        # the parameter is handed on to a callee given via defs=
+        defs = ["both"]
+        params, args, ret = [("k", "bool")], [("a", "bool")], "bool"
+        sig = ["a: bool", "k: Parameter[bool]"]
+        if r.random() < 0.5:
+            sig.reverse()
+        src = f"def {name}({', '.join(sig)}) -> bool:\n    return both({r.choice(['a, k', 'k, a'])}) ^ (not a)\n"
+    elif t == "double_index":
+        params, args, ret = [("p", "List[Tuple[bool, bool]]")], [("a", "bool")], "bool"
+        i, j = r.randrange(2), r.randrange(2)
+        src = f"def {name}(p: Parameter[List[Tuple[bool, bool]]], a: bool) -> bool:\n    return p[{i}][{j}] ^ a\n"
+    elif t == "augassign":
+        params, args, ret = [("p", "Qint[2]")], [("x", "Qint[2]"), ("a", "bool")], "Qint[2]"
+        op_ = r.choice(["^=", "&=", "|="])
+        src = f"def {name}(x: Qint[2], p: Parameter[Qint[2]], a: bool) -> Qint[2]:\n    s = x\n    if a:\n        s {op_} p\n    return s\n"
     elif t == "lookup":
         params, args, ret = [("p", "Qlist[Qint[2], 4]")], [("x", "Qint[2]")], "Qint[2]"
         src = f"def {name}(p: Parameter[Qlist[Qint[2], 4]], x: Qint[2]) -> Qint[2]:\n    return p[x]\n"
